@@ -8,8 +8,8 @@ HERE = os.path.dirname(os.path.dirname(os.path.abspath(__file__)))
 # property id -> (engine module, technique, level text, level note, design ref)
 CHECKS = {
     "C16": (
-        "DPEntry.tla + DPCombine.tla + DPGen.tla + TraceDPEntry.tla",
-        "TLC state-graph exploration of the Entry/cell machine; every contract transition, history (all batchings) and combination replayed on the real classes; recorded histories validated by a TLA+ trace spec",
+        "DPEntryOps.tla + DPEntry.tla + DPCombine.tla + DPGen.tla + TraceDPEntry.tla + apalache/DPEntryInd.tla",
+        "TLC state-graph exploration of the Entry/cell machine; every contract transition, history (all batchings) and combination replayed on the real classes; recorded histories (random, and the update histories of real solver runs through the guarded tracing hook) validated by a TLA+ trace spec; Apalache discharges the contract as an inductive invariant over all integer values",
         "Model checking of the update/combine state machine (finite, closed under histories of any length over the alphabet) plus bounded-exhaustive spec->code replay and code->spec trace validation; the contract is the property text, so any retained tag or value outside it is reported.",
         "Trusts TLC, the TLA+ value reader and the projection (value(), infos(), info(), len(), iter()); candidate values finite, tags truthy strings; the alphabet is 3 values x 2 tags (+ random 10 values x 5 tags in traces).",
         "5/C16",
